@@ -1287,7 +1287,7 @@ namespace bluetoe {
             template< typename Service >
             void each()
             {
-                if ( !stoped_
+                if ( !stoped_ && !Service::is_secondary
                     && ( starting_index_ != details::invalid_attribute_index && starting_index_ <= index_ )
                     && ( ending_index_ != details::invalid_attribute_index && index_ <= ending_index_ ) )
                 {
@@ -1576,7 +1576,8 @@ namespace bluetoe {
             template< typename Service >
             void each()
             {
-                if ( ( starting_index_ != details::invalid_attribute_index && starting_index_ <= index_ )
+                if ( !Service::is_secondary
+                    && ( starting_index_ != details::invalid_attribute_index && starting_index_ <= index_ )
                     && ( ending_index_ != details::invalid_attribute_index && index_ <= ending_index_ ) )
                 {
                     const details::attribute& attr = Server::attribute_at( index_ );
